@@ -3,8 +3,11 @@
 (scripts/confirm_seed.sh) and, when confirmed, store them under /verif/seeded/Cnn-<v>/."""
 import sys,os,re,json,subprocess,shutil
 pid=sys.argv[1]; variants=sys.argv[2:] or ['a','b']
+BASE=os.environ.get('MUT_BASE','/tmp/mut')
+# wave 2 variants are stored as c,d so ids stay unique
+REN={'a':'c','b':'d'} if BASE.endswith('mut2') else {}
 for v in variants:
-    src=f'/tmp/mut/{pid}/out/{v}'
+    src=f'{BASE}/{pid}/out/{v}'
     if not os.path.exists(src+'/patch.diff'):
         print(pid,v,'no patch'); continue
     demo=src+'/demo_test.go'
@@ -31,13 +34,13 @@ for v in variants:
     ok='RESULT confirmed' in out
     print(pid,v,'CONFIRMED' if ok else 'NOT-CONFIRMED'); 
     if not ok: print(tail); continue
-    d=f'/verif/seeded/{pid}-{v}'; os.makedirs(d,exist_ok=True)
+    sv=REN.get(v,v); d=f'/verif/seeded/{pid}-{sv}'; os.makedirs(d,exist_ok=True)
     shutil.copy(src+'/patch.diff',d); shutil.copy(demo,d+'/demo_test.go')
     readme=''
     if os.path.exists(src+'/README.md'):
         shutil.copy(src+'/README.md',d); readme=open(src+'/README.md').read()
     head=subprocess.check_output(['git','-C','/repo','rev-parse','--short','HEAD'],text=True).strip()
-    json.dump({"id":f"{pid}-{v}","property":pid,
+    json.dump({"id":f"{pid}-{sv}","property":pid,
       "what_changed_and_what_it_needs":"see README.md (written by the authoring sub-agent): "+' '.join(readme.split())[:700],
       "demo":{"place_at":dest,"run":f"go test -count=1 -run '{run}' ./{os.path.dirname(dest)}/"},
       "confirmed":{"by":' '.join(cmd).replace(src,d),"at_repo_head":head,
